@@ -949,6 +949,7 @@ def _bpki_share(unwrap, badpwd=False):
         name = "bpkiShare" + ("Unwrap" if unwrap else "Wrap") + (":bad-pwd" if badpwd else "")
         c = Call(name, lib.bpkiShareUnwrap if unwrap else lib.bpkiShareWrap, "bad-pwd" if badpwd else "ok")
         c.expect_ok = not badpwd
+        shared = None
         for v in c.v:
             share, pwd = bytes([idx]) + rb(rng, slen - 1), rb(rng, 12)
             ln = lib.alloc(8, 0)
@@ -957,8 +958,11 @@ def _bpki_share(unwrap, badpwd=False):
             n = lib.rd_size(ln)
             epki = lib.alloc(n)
             if not unwrap:
-                v.args = [epki, lib.alloc(8, 0), lib.mk(share), slen, lib.mk(pwd), 12, lib.mk(salt), it]
-                v.outs = [(epki, n)]
+                # bpkiShareWrap wipes the caller's epki on its error exits and memWipe's counter absorbs the address it wiped:
+                # both twins (separate children) write to one and the same output buffer
+                shared = shared or (epki, lib.alloc(8, 0))
+                v.args = [shared[0], shared[1], lib.mk(share), slen, lib.mk(pwd), 12, lib.mk(salt), it]
+                v.outs = [(shared[0], n)]
                 v.pub = [salt]
                 v.needles = [share, pwd]
             else:
@@ -1215,9 +1219,6 @@ def dstu_params(lib, name):
         if lib.dstuPointGen(pt, pp, lib.addr(_brng()), st) != ERR_OK:
             raise Harness("dstuPointGen failed")
         P = _CACHE[(id(lib), "dstu", name)] = P0.with_point(lib.rd(pt, 2 * P0.no))
-        for x in (pt, pp):
-            lib.free_one(x)
-            del lib.sizes[x]
     return P
 
 
